@@ -25,8 +25,28 @@ Theorem C17_write_exact_partial :
   forall ops id o tr s' o', id <= varint_max ->
     send_run ops (send_new (qsend_new id)) o = (tr, s', o') ->
     qs_log (s_q s') ++ view_opt (s_writing s') = spec_handed (map abs_send tr) /\
-    Forall send_ev_not_panic tr /\ map fst tr = ops.
+    Forall send_ev_ok tr /\ map fst tr = ops.
 Proof. exact write_exact_new. Qed.
+
+(* corollary used for finish: whenever nothing is waiting in `writing`, everything accepted has been handed over *)
+Theorem C17_nothing_pending_all_handed_partial :
+  forall ops id o tr s' o',
+    send_run ops (send_new (qsend_new id)) o = (tr, s', o') -> s_writing s' = None ->
+    qs_log (s_q s') = spec_handed (map abs_send tr).
+Proof. exact nothing_pending_all_handed. Qed.
+
+(* REFUTED: "poll_finish Ok => every accepted buffer reached Quinn".  poll_finish ignores `writing`; reachable
+   through h3's public API: drop the future of RequestStream::send_data while it is pending (timeout/select),
+   then call finish() (no grease frame left to send): finish returns Ok, the peer sees a clean FIN after a
+   truncated DATA frame.  Witness replayed on real Quinn by the `cfin` cases of the harness. *)
+Theorem C17_finish_while_writing_refuted :
+  let ops := [OSendData [[0; 4]; [1; 2; 3; 4]]; OPollReady; OPollFinish] in
+  let o := [WAccept 2; WAccept 1; WBlocked] in
+  exists tr s' o', send_run ops (send_new (qsend_new 0)) o = (tr, s', o') /\
+    map snd tr = [SRUnit (Ok tt); SRPoll Pending; SRPoll (Ready (Ok tt))] /\
+    qs_finished (s_q s') = true /\
+    qs_log (s_q s') = [0; 4; 1] /\ spec_handed (map abs_send tr) = [0; 4; 1; 2; 3; 4].
+Proof. exact finish_while_writing_truncates. Qed.
 
 (* when poll_ready answers Ready(Ok) nothing is left waiting: Quinn has been handed exactly the accepted buffers *)
 Theorem C17_write_complete_partial :
@@ -59,8 +79,17 @@ Theorem C17_poll_send_exact_partial :
     qs_log (s_q s') ++ wb_view buf' = qs_log (s_q s) ++ wb_view buf /\
     s_writing s' = None /\ qs_id (s_q s') = qs_id (s_q s) /\
     poll_not_panic r /\
-    (forall k, r = Ready (Ok k) -> len (wb_view buf') + k = len (wb_view buf)).
+    (forall k, r = Ready (Ok k) -> len (wb_view buf') + k = len (wb_view buf)) /\
+    qs_log (s_q s') = qs_log (s_q s) ++ raw_of r buf /\
+    (exists used, o = used ++ o').
 Proof. exact poll_send_exact. Qed.
+
+(* poll_send while a framed write is unfinished is refused (the Rust panics, site 41) and touches nothing:
+   raw bytes are never interleaved with the buffer in flight.  In send programs (C17_write_exact_partial,
+   which include OPollSend) this is the only panic that can occur. *)
+Theorem C17_overlapping_poll_send_refused :
+  forall o buf d s, s_writing s = Some d -> poll_send o buf s = (Ready (Panic 41), s, buf, o).
+Proof. exact poll_send_refused. Qed.
 
 (* an overlapping send_data is refused (InternalError) and changes nothing: no interleaving *)
 Theorem C17_overlapping_send_refused :
@@ -126,9 +155,9 @@ Theorem C17_peer_codes_preserved :
 Proof. exact codes_preserved. Qed.
 
 Theorem C17_open_accept_errors :
-  forall e,
-    open_bidi (Err e) = Err (HConnErr (spec_conn_class e)) /\
-    open_send (Err e) = Err (HConnErr (spec_conn_class e)) /\
+  forall w e,
+    open_bidi w (Err e) = Err (HConnErr (spec_conn_class e)) /\
+    open_send w (Err e) = Err (HConnErr (spec_conn_class e)) /\
     accept_recv (Err e) = Err (spec_conn_class e) /\
     accept_bidi (Err e) = Err (spec_conn_class e).
 Proof. exact open_accept_errors. Qed.
@@ -148,6 +177,9 @@ Theorem C17_incoming_datagram :
     | Ready (Panic p) => Ready (Panic p)
     end.
 Proof. exact poll_incoming_datagram_spec. Qed.
+
+Theorem C17_close_code : forall w code, code <= varint_max -> conn_close w code = Ok code.
+Proof. exact conn_close_spec. Qed.
 
 Theorem C17_reset_code : forall c, reset_code c = Ok (spec_reset_code c).
 Proof. exact reset_code_spec. Qed.
@@ -180,12 +212,13 @@ Proof. exact stop_delivered_grows. Qed.
 (* a DATA-like buffer of header [0;5] and payload chunks [1;2] [3;4;5], Quinn accepting 1, blocking,
    accepting 3 (clipped to the chunk), 100, 100: a second send_data in the middle is refused, the log is exact *)
 Example C17_write_inhabited :
-  let ops := [OSendData [[0;5]; [1;2]; [3;4;5]]; OPollReady; OSendData [[9;9]]; OSendId; OPollReady; OPollFinish] in
-  let o := [WAccept 1; WBlocked; WAccept 3; WAccept 100; WAccept 100] in
+  let ops := [OSendData [[0;5]; [1;2]; [3;4;5]]; OPollReady; OSendData [[9;9]]; OPollSend [[8;8]]; OSendId; OPollReady;
+              OPollSend [[7;7;7]]; OPollFinish] in
+  let o := [WAccept 1; WBlocked; WAccept 3; WAccept 100; WAccept 100; WAccept 2] in
   exists tr s' o', send_run ops (send_new (qsend_new 8)) o = (tr, s', o') /\
-    map snd tr = [SRUnit (Ok tt); SRPoll Pending; SRUnit (Err (HConnErr HInternalError)); SRId (Ok 8);
-                  SRPoll (Ready (Ok tt)); SRPoll (Ready (Ok tt))] /\
-    qs_log (s_q s') = [0;5;1;2;3;4;5] /\ s_writing s' = None.
+    map snd tr = [SRUnit (Ok tt); SRPoll Pending; SRUnit (Err (HConnErr HInternalError)); SRSend (Ready (Panic 41));
+                  SRId (Ok 8); SRPoll (Ready (Ok tt)); SRSend (Ready (Ok 2)); SRPoll (Ready (Ok tt))] /\
+    qs_log (s_q s') = [0;5;1;2;3;4;5;7;7] /\ s_writing s' = None.
 Proof. do 3 eexists. split; [vm_compute; reflexivity|]. repeat split. Qed.
 
 Example C17_progress_inhabited :
@@ -207,6 +240,10 @@ Example C17_recv_inhabited :
 Proof. do 4 eexists. split; [vm_compute; reflexivity|]. split; [vm_compute; reflexivity|]. repeat split. Qed.
 
 Print Assumptions C17_write_exact_partial.
+Print Assumptions C17_nothing_pending_all_handed_partial.
+Print Assumptions C17_finish_while_writing_refuted.
+Print Assumptions C17_overlapping_poll_send_refused.
+Print Assumptions C17_close_code.
 Print Assumptions C17_write_complete_partial.
 Print Assumptions C17_poll_ready_any_split_partial.
 Print Assumptions C17_write_progress_partial.
